@@ -198,6 +198,7 @@ func newSession() *session {
 	s := &session{}
 	s.vs = scope.NewScope(scope.GlobalScope)
 	s.erp = interpreter.NewECALRuntimeProvider("c16", &util.MemoryImportLocator{Files: map[string]string{"lib": libSource}}, util.NewNullLogger())
+	stopCron(s.erp)
 	s.dbg = interpreter.NewECALDebugger(s.vs)
 	s.erp.Debugger = s.dbg
 	s.vs.SetValue("hold", &holdFunc{s})
@@ -210,6 +211,27 @@ func newSession() *session {
 		hx.E.Class("quiescence.by-goroutine-dump", 1)
 	}
 	return s
+}
+
+// stopCron stops the provider's cron thread right after it was created (no
+// program here uses cron triggers). Stopping it at the end of a case instead
+// can deadlock inside krotik/common once a session is older than one tick
+// (1 s): Cron.Stop holds cronLock while it hands "stop" to the cron goroutine,
+// which after a tick waits for that same lock. That library is outside /repo,
+// so the harness keeps away from the window and bounds the wait anyway.
+func stopCron(erp *interpreter.ECALRuntimeProvider) {
+	done := make(chan struct{})
+	go func() {
+		erp.Cron.Stop()
+		close(done)
+	}()
+	t := time.NewTimer(callBound)
+	defer t.Stop()
+	select {
+	case <-done:
+	case <-t.C:
+		hx.E.Class("teardown.cron-stop-stuck", 1)
+	}
 }
 
 // holdFunc is the ECAL function hold(): it blocks until the harness releases it.
@@ -448,6 +470,10 @@ func parseDump(b []byte, markMain []byte) []gstate {
 func (s *session) where() string {
 	buf := make([]byte, 1<<20)
 	n := runtime.Stack(buf, true)
+	for n == len(buf) && len(buf) < 1<<27 {
+		buf = make([]byte, 2*len(buf))
+		n = runtime.Stack(buf, true)
+	}
 	mark := []byte(fmt.Sprintf("c16.(*session).threadMain(%p,", s))
 	var out []string
 	for _, blk := range bytes.Split(buf[:n], []byte("\n\n")) {
@@ -469,7 +495,15 @@ func (s *session) where() string {
 				break
 			}
 		}
-		out = append(out, strings.SplitN(string(blk), "\n", 2)[0]+" "+strings.Join(fr, " < "))
+		// (no goroutine ids: rapid only shrinks failures whose message repeats)
+		head := strings.SplitN(string(blk), "\n", 2)[0]
+		if i, j := strings.IndexByte(head, '['), strings.IndexByte(head, ']'); i >= 0 && j > i {
+			head = head[i : j+1]
+			if k := strings.IndexByte(head, ','); k >= 0 {
+				head = head[:k] + "]"
+			}
+		}
+		out = append(out, head+" "+strings.Join(fr, " < "))
 	}
 	return strings.Join(out, " || ")
 }
@@ -934,5 +968,4 @@ func (s *session) close() {
 	if len(s.active()) > 0 {
 		hx.E.Class("teardown.leaked-thread", 1)
 	}
-	s.erp.Cron.Stop()
 }
